@@ -6,7 +6,7 @@
     one-line delegations) at least Acquire.  The machine (Conc.v) has any number of threads, every
     interleaving, stale loads, relaxed RMWs continuing release sequences, extra synchronisation. *)
 From Coq Require Import List Bool Arith.
-From TV Require Import Layout SrcFacts Conc ConcProofs Mech MechProofs Extracted.
+From TV Require Import Layout SrcFacts Conc ConcProofs ConcX Mech MechProofs Extracted.
 Import ListNotations.
 
 (** For every enabled schedule of every number of threads, under the orderings the source uses: no payload
@@ -26,6 +26,12 @@ Qed.
     [drop_inner] has the decrement / acquire / [drop_slow] shape the machine's two-step drop models. *)
 Theorem C02_closed_world : Extracted.sites_closed = true /\ Extracted.drop_inner_shape_ok = true.
 Proof. split; reflexivity. Qed.
+
+(** The release path as it is written in the source, translated to a program over the counter on every run, is the
+    one the machine's two-step drop models: a Release decrement whose own result elects the destroyer, then an Acquire
+    load, then destroy and free. *)
+Theorem C02_drop_protocol_as_written : p_drop Extracted.count_progs = p_drop good_progs.
+Proof. reflexivity. Qed.
 
 (** Every other handle kind funnels clone and drop through Arc's: the [Clone]/[Drop] impl of every kind of the
     sequential machine is extensionally [Arc_clone] / [Arc_drop] on the same block. *)
@@ -49,3 +55,4 @@ Print Assumptions C02_one_destroyer_after_all_accesses.
 Print Assumptions C02_closed_world.
 Print Assumptions C02_every_kind_funnels_through_arc.
 Print Assumptions C02_orderings_are_necessary.
+Print Assumptions C02_drop_protocol_as_written.
